@@ -83,7 +83,7 @@ def loader_instances(tier):
     # typed sections: concrete placement, symbolic content
     bodies = {1: [0, 5], 2: [0, 3, 4, 9], 3: [0, 17, 18, 19, 36], 8: [0, 10, 11, 12, 14, 24], 9: [0, 7, 8, 17]}
     if tier == 'thorough':
-        bodies = {1: [0, 1, 5, 16], 2: [0, 1, 3, 4, 5, 8, 9, 13, 16, 21], 3: [0, 1, 17, 18, 19, 36, 37, 54], 8: [0, 10, 11, 12, 13, 14, 22, 24, 26, 36], 9: [0, 1, 7, 8, 9, 16, 17, 24]}
+        bodies = {1: [0, 1, 5, 16], 2: [0, 1, 3, 4, 5, 8, 9, 13], 3: [0, 1, 17, 18, 19, 36, 37, 54], 8: [0, 10, 11, 12, 13, 14, 22, 24, 26, 36], 9: [0, 1, 7, 8, 9, 16, 17, 24]}
     for t, bs in bodies.items():
         for b in bs:
             inst.append((44 + b, [(t, 44, b)]))
@@ -97,7 +97,7 @@ def loader_instances(tier):
         for (b0, b1) in ([(9, 11)] if tier == 'quick' else [(9, 11), (18, 8), (4, 22)]):
             b0, b1 = cap(a, b0, b), cap(b, b1, a)
             inst.append((56 + b0 + b1, [(a, 56, b0), (b, 56 + b0, b1)]))
-        ov = 8 if 2 in (a, b) else 12
+        ov = 8 if (2 in (a, b) or (a, b) == (8, 8)) else 12
         if (a, b) == (2, 2): ov = 5
         inst.append((56 + ov, [(a, 56, ov), (b, 56, ov)]))       # overlapping sections
     seen = set(); inst = [x for x in inst if not (repr(x) in seen or seen.add(repr(x)))]
